@@ -137,7 +137,7 @@ impl<'a> Sink for RecSink<'a> {
     }
 }
 
-fn run_one(v: &Value) -> Value {
+fn run_one(v: &Value, cache: &mut std::collections::HashMap<String, Searcher>) -> Value {
     let scn = &v["scn"];
     let inp = bytes_of(&scn["inp"]);
     let cfg = &scn["cfg"];
@@ -180,7 +180,14 @@ fn run_one(v: &Value) -> Value {
     if strat == "mmap" {
         b.memory_map(unsafe { MmapChoice::auto() });
     }
-    let mut searcher = b.build();
+    // Searchers are meant to be reused: keep one per distinct configuration so that state leaking
+    // from one search into the next (roll buffer, offsets, binary detection) is observable.
+    let key = format!("{}|{}|{}|{}|{:?}|{:?}|{}", cfg, strat == "mmap", bin, multi_line, heap_limit, cap0, path == "slow");
+    if cache.len() > 256 {
+        cache.clear();
+    }
+    let reused = cache.contains_key(&key);
+    let searcher = cache.entry(key).or_insert_with(|| b.build());
     let mut sink = RecSink {
         inp: &inp,
         out: vec![],
@@ -239,11 +246,12 @@ fn run_one(v: &Value) -> Value {
         }
     };
     json!({"out": sink.out, "result": result, "err": err, "nreads": rdr.calls, "wants": rdr.wants,
-           "bytes_ok": sink.bytes_ok, "strat": strat})
+           "bytes_ok": sink.bytes_ok, "strat": strat, "reused": reused})
 }
 
 fn main() {
     std::panic::set_hook(Box::new(|_| {}));
-    for_each_json_line(|v| run_one(&v));
+    let mut cache = std::collections::HashMap::new();
+    for_each_json_line(|v| run_one(&v, &mut cache));
     let _ = std::fs::remove_dir_all(std::env::temp_dir().join(format!("verif-rs-{}", std::process::id())));
 }
